@@ -346,6 +346,27 @@ theorem C16_group_stopped_pool_drains (pre ops : List SOp) (q : Nat)
 example : let pre : List SOp := [.base (.newGroup none), .base (.newPool 0), .base (.inc 1), .flag 0, .stop 1]
     isPoolAt (runS {} pre).tree 1 = true ∧ isShut (runS {} pre) 1 = true ∧ val (runS {} pre).tree 1 = 1 := by decide
 
+/-- **A whole `Group.Shutdown` reaches every direct child.**  In any state reached by the group operations, a
+`Group.Shutdown()` of a group `g` whose flag is not yet set leaves `g` flagged and every node created in `g` flagged too:
+a pool is stopped (`pool.Shutdown()` was called), a sub-group has run (or had run before) its own `shutdown`.  With
+`C16_group_stopped_pool_drains` and the pool-level theorems: after `Group.Shutdown` every pool directly in the group runs
+dry and terminates.  (Deeper levels: below a sub-group that was flagged EARLIER nothing is visited — see
+`C16_group_shutdown_orphan_example`.) -/
+theorem C16_group_shutdown_stops_children (pre : List SOp) (g i : Nat) (n : Node)
+    (hg : isShut (runS {} pre) g = false) (hi : (runS {} pre).tree[i]? = some n) (hp : n.parent = some g) :
+    isShut (stepS (runS {} pre) (.shutdown g)) i = true ∧ isShut (stepS (runS {} pre) (.shutdown g)) g = true := by
+  have hinv : Inv (runS {} pre).tree := inv_runS {} pre inv_nil
+  have hlen := len_runS {} pre rfl
+  have hgl : g < (runS {} pre).tree.length := by
+    have := (hinv.wf.par i n g hi hp).1
+    have := Hive.WP.lt_of_get hi
+    omega
+  exact shutdownAll_sets _ g i n hg hi hp hlen hgl
+
+example : let pre : List SOp := [.base (.newGroup none), .base (.newPool 0), .base (.newGroup (some 0))]
+    isShut (runS {} pre) 0 = false ∧ (runS {} pre).tree[1]? = some ⟨some 0, true, 0⟩ ∧
+      (stepS (runS {} pre) (.shutdown 0)).shut = [true, true, true] := by decide
+
 example : ∃ s : GS, isShut s 1 = true := ⟨{ tree := [], shut := [false, true] }, by decide⟩
 
 /-- The shutdown window (the `group sdwin` scenario of the harness): root 0, sub-group 1 with pools 2, 3, 4.  After the
